@@ -12,6 +12,7 @@ CONSTANTS
   MaxCuts = 3
   ClassSet = {"bnd", "name", "idfull", "data", "datafull"}
   AnswerSet = {"terr", "ok"}
+  TailSet = {"good"}
   FixScanner = FALSE
   FixCursor = TRUE
   Fix5xx = TRUE
